@@ -119,6 +119,14 @@ class extract_visitor(NodeVisitor):
         else:
             self.visit(name)
 
+    def visit_Delete(self, node):
+        # type: (ast.Delete) -> None
+        for name in node.targets:
+            if isinstance(name, AstName):
+                # deleting a name makes it local to the scope
+                self.flow.scope.locals.add(name.id)
+        self.generic_visit(node)
+
     def visit_If(self, node):
         # type: (ast.If) -> None
         self.visit(node.test)
